@@ -84,12 +84,13 @@ def wf_scenario(rng, k, worker):
     gate = None if worker == "cf" else dict(policy=rng.choice(["random", "bursts", "roundrobin"]), seed=rng.randrange(10 ** 6))
     return dict(name="c10-wf-%s-%d" % (worker, k), pre=rng.random() < 0.2,
                 task=dict(task="workflow", x=rng.randrange(1, 40), worker=worker, delay=rng.choice([0.0, 0.1])),
-                stages=[dict(children=[dict(subs=[{}]) for _ in range(nproc)], gate=gate)], timeout=240)
+                stages=[dict(children=[dict(subs=[{}]) for _ in range(nproc)], gate=gate)],
+                timeout=(480 if worker == "cf" else 240))
 
 
 def cf_python(rng, k):
     return dict(name="c10-py-cf-%d" % k, pre=False, task=dict(task="python", x=rng.randrange(1, 40), worker="cf"),
-                stages=[dict(children=[dict(subs=[{}]) for _ in range(rng.choice([2, 3]))], gate=None)], timeout=240)
+                stages=[dict(children=[dict(subs=[{}]) for _ in range(rng.choice([2, 3]))], gate=None)], timeout=480)
 
 
 def gen_scenarios(rng, n, corpus):
